@@ -171,6 +171,9 @@ func checkVJP(c VJPCase, property string) *Failure {
 		if err := tensor.BackPropagate(z); err != nil {
 			return failf("%s was accepted but BackPropagate failed (weighted=%v): %v", node.Op, variant == 0, err)
 		}
+		if c.P.Disturb {
+			prog.Disturbance(c.P, true)
+		}
 		for i, l := range c.P.Leaves {
 			g := lv[i].Gradient()
 			if !l.Tracked {
